@@ -113,6 +113,39 @@ mod verif_c07_newpacket {
         assert!(g2.pn().0 == pn + 1 && g2.pn().0 > pn, "C07.newpacket.build_trivial.next_is_strictly_larger");
     }
 
+    /// two packets in a row, each either trivial-only (build_trivial) or built with build_with_time: every packet that is
+    /// really built consumes exactly one number and the second one carries a strictly larger number than the first --
+    /// whatever the first one left at the tail of the journal (the property quantifies over sequences of assemblies).
+    #[kani::proof]
+    #[kani::unwind(4)] // the two-iteration loop below; also cuts std Mutex::lock_contended
+    #[kani::stub(tokio::time::Instant::now, any_instant)]
+    fn two_packets_in_a_row_contract() {
+        let (j, next) = any_journal();
+        kani::assume(next < VARINT_MAX - 1); // room for two numbers
+        let first_trivial: bool = kani::any();
+        let second_trivial: bool = kani::any();
+        let mut pns = [0u64; 2];
+        let mut k = 0;
+        while k < 2 {
+            let trivial = if k == 0 { first_trivial } else { second_trivial };
+            let mut g = new_packet(&j);
+            pns[k] = g.pn().0;
+            if trivial {
+                g.record_trivial();
+                g.build_trivial();
+            } else {
+                g.record_frame(kani::any::<u8>());
+                g.build_with_time(any_timeout(), any_timeout());
+            }
+            k += 1;
+        }
+        assert!(pns[0] == next, "C07.newpacket.sequence.first_packet_gets_the_next_unused_number");
+        assert!(pns[1] == pns[0] + 1, "C07.newpacket.sequence.second_built_packet_gets_a_strictly_larger_number");
+        assert!(next_pn_of(&j) == next + 2, "C07.newpacket.sequence.each_built_packet_consumes_exactly_one_number");
+        kani::cover!(first_trivial && second_trivial, "C07.newpacket.sequence.reach_two_trivial_packets");
+        kani::cover!(!first_trivial && second_trivial, "C07.newpacket.sequence.reach_trivial_after_data");
+    }
+
     /// build_with_time: pushes exactly one record iff (a frame was recorded or the packet is trivial);
     /// the record counts exactly the frames recorded through this guard; otherwise the number is not consumed.
     #[kani::proof]
